@@ -53,7 +53,7 @@ fn continuous_cases(run: &Run) -> Vec<Cont> {
     let shapes = [0.2, 0.5, 1.0, 1.5, 3.0, 20.0, 150.0];
     let rates = [1e-3, 1e-2, 0.1, 1.0, 10.0, 1e2, 1e3];
     let locs = [0.0, 1.0, -1.0, 1e3, -1e3];
-    let np = run.tier.pick(120usize, 400usize);
+    let np = run.tier.pick(120usize, 4000usize);
     // Normal
     for &mu in &locs {
         for &sigma in &[1e-3, 0.5, 1.0, 20.0, 1e3] {
